@@ -474,7 +474,7 @@ PROPERTIES["C07"] = {
 
 # ------------------------------------------------------------------------------------------ C06
 _c06 = []
-_q06 = {"ipver_1", "pclass_1", "quirk_3", "tcpopt_3", "ttl_3"}
+_q06 = {"ipver_1", "pclass_1", "tcpopt_3"}  # quick must stay well under 15 min: each nom query costs 7-14 min
 for ty, lens in [("ipver", [1, 2]), ("pclass", [1, 2]), ("quirk", [2, 3, 4]), ("tcpopt", [2, 3, 4]), ("ttl", [1, 2, 3, 4]), ("window", [1, 2, 3, 4])]:
     for n in lens:
         _c06.append(H(f"c06::c06_{ty}_{n}", "quick" if f"{ty}_{n}" in _q06 else "thorough",
@@ -487,7 +487,7 @@ PROPERTIES["C06"] = {
     "explanation": "Token grammar of the TCP signature language by bounded model checking: the real FromStr implementations (nom 8 combinators of db_parse.rs) of the six "
                    "leaf types on every printable-ASCII string of the stated length, against a hand-written recogniser over bytes (no nom).",
     "functions": ["<IpVersion|PayloadSize|Quirk|TcpOption|Ttl|WindowSize as FromStr>::from_str (db_parse::{parse_ip_version, parse_payload_size, parse_quirk, parse_tcp_option, parse_ttl, parse_window_size})"],
-    "bounds": "strings of 1..4 bytes (quick: one length per type); each query 7-14 min and 9-14 GB, hence at most 3 at a time",
+    "bounds": "strings of 1..4 bytes; quick: IpVersion and PayloadSize on 1 byte, TcpOption on 3 bytes (each nom query costs 7-14 min and 9-14 GB, at most 3 at a time; the other lengths and types are the thorough tier)",
     "outside": "value -> text -> value (core::fmt on symbolic values exhausts memory), so the round-trip form of the property is not decided; tokens longer than 4 bytes (mss*n, mtu*n, eol+n, uptr+, urgf+, pushf+); "
                "whole signature lines, HTTP signatures, labels, Database::from_str (sections, HashMap index), every Display impl - seeds in display.rs are missed by design",
     "assumptions": ["E1", "E6 format stub (error messages not read)", "printable ASCII"],
